@@ -300,7 +300,14 @@ fn python_style_comments_parser(
         language,
         Box::new(move |node, source_code| {
             if node.kind() == comment_node_kind {
-                Some(source_code[node.byte_range()].replacen("#", " ", 1))
+                let comment = &source_code[node.byte_range()];
+                // Only the leading marker is blanked: a comment of another form (Ruby's
+                // `=begin` … `=end`) has none, and a `#` further in is the comment's own text.
+                Some(if comment.starts_with('#') {
+                    comment.replacen("#", " ", 1)
+                } else {
+                    comment.to_string()
+                })
             } else {
                 None
             }
